@@ -164,6 +164,17 @@ CHECKS["C10"] = dict(
          "floats, where no symbolic value survives",
     technique=Z, ref="DESIGN.md section 5 C10")
 
+CHECKS["C02"] = dict(
+    engine="Z", category="other",
+    text="bounded symbolic verification of ONE mechanism of C02 - the per-component presence pre-check: balance_stoichiometry runs on "
+         "species with symbolic composition entries up to the construction of the sympy matrix; on every path ending in the pre-check's "
+         "ValueError z3 proves that A*x = 0 has no solution with all x >= 1, i.e. the pre-check never refuses a placement that positive "
+         "coefficients can balance",
+    note="NOT claimed (outside the reach of this technique): that returned coefficients are balanced / positive / coprime / minimal, "
+         "refusal of every unbalanceable placement (e.g. 'C + CO -> CO2' returns -1 on the pinned tree), duplicate handling - the code "
+         "after the pre-check runs inside sympy.linsolve and the PuLP/CBC subprocess; r+p <= 4 species, <= 3 composition keys",
+    technique=Z, ref="DESIGN.md section 5 C02")
+
 NA = {
     "C09": "property is about float conversion factors produced inside the 'quantities' package and numpy array helpers; no symbolic "
            "value survives to_unitless (float(result)), and symbolic magnitudes alone would only re-prove linearity (DESIGN.md section 6)",
